@@ -157,3 +157,55 @@ def take_records():
     for x in r:
         x["threads"] = len(x["threads"])
     return r
+
+
+# =========================================================================== yield injection inside jobs
+class YieldInjector:
+    """Finer than job granularity: a sys.monitoring LINE callback on the library's own Python code that, in worker
+    threads only, gives the GIL away (time.sleep(0)) at seeded random statement boundaries.  This manufactures the
+    interleavings in which one job is suspended between two statements that touch state shared with another job
+    (the dissimilarity object, the sampler, the input continuum).  Only statement boundaries of Python code can be
+    chosen - numba kernels and the MIP solvers run to completion (they do not release the GIL here)."""
+    TOOL = 4   # a free sys.monitoring tool id
+
+    def __init__(self, seed=0, probability=0.03):
+        import sys
+        self.sys = sys
+        self.rng = random.Random(seed)
+        self.p = probability
+        self.main = threading.get_ident()
+        self.yields = 0
+        self.lines_seen = 0
+        self.active = False
+
+    def start(self, package_dir):
+        mon = self.sys.monitoring
+        self.package_dir = package_dir
+        try:
+            mon.use_tool_id(self.TOOL, "verif-yield")
+        except ValueError:
+            mon.free_tool_id(self.TOOL)
+            mon.use_tool_id(self.TOOL, "verif-yield")
+        mon.register_callback(self.TOOL, mon.events.LINE, self._line)
+        mon.set_events(self.TOOL, mon.events.LINE)
+        self.active = True
+
+    def _line(self, code, lineno):
+        if not code.co_filename.startswith(self.package_dir):
+            return self.sys.monitoring.DISABLE      # never look at this location again
+        if threading.get_ident() == self.main:
+            return None
+        self.lines_seen += 1
+        if self.rng.random() < self.p:
+            self.yields += 1
+            time.sleep(0)
+        return None
+
+    def stop(self):
+        if self.active:
+            mon = self.sys.monitoring
+            mon.set_events(self.TOOL, 0)
+            mon.register_callback(self.TOOL, mon.events.LINE, None)
+            mon.free_tool_id(self.TOOL)
+            mon.restart_events()
+            self.active = False
